@@ -11,6 +11,8 @@ CONSTANTS
   Mode = "G"
   MaxOps = 1000000
   GVAfter = 0
+  StepSet = {2, 4, 5}
+  Back = TRUE
   Weaken = FALSE
 CONSTRAINT HighWater
 POSTCONDITION Accepted
